@@ -1,4 +1,240 @@
-//! engine `xmltb` (stub)
-pub fn run(_fields: &[&str]) -> String {
-    "unimplemented".to_string()
+//! engine `xmltb`: the real xml5ever tree builder (and, in `src` mode, the real tokenizer) into RcDom.
+//!
+//! case fields:
+//!   `tok <tokens>`            tokens fed straight into `XmlTreeBuilder::process_token`, then `end()`
+//!   `src <chunks> <rawtoks>`  XML text chunks (space-hex, `|`-separated) through `parse_document`;
+//!                             the third field (the raw token list the text was rendered from) is for
+//!                             the Lean model only and is ignored here
+//! token syntax (`;`-separated, parts `,`-separated, strings = `.`-joined hex code points, `-` empty,
+//! `~` = None):  `S|M|E|H,prefix,local(,aprefix,alocal,avalue)*`  `T,text`  `C,text`  `P,target,data`
+//!               `D,name,public,system`  `N` (NullCharacter)  `Z` (EndOfFile)
+//! output: `err=<codes>;tree=<dump>` — see `dump_children`; lean/H5V/Model/XmlTBDriver.lean prints the same.
+use crate::proto::parse_string;
+use markup5ever::{Attribute, LocalName, Namespace, Prefix, QualName};
+use markup5ever_rcdom::{Handle, NodeData, RcDom};
+use tendril::{StrTendril, TendrilSink};
+use xml5ever::driver::parse_document;
+use xml5ever::tokenizer::{Doctype, Pi, Tag, TagKind, Token, TokenSink};
+use xml5ever::tree_builder::{XmlTreeBuilder, XmlTreeBuilderOpts};
+
+pub fn dhex(s: &str) -> String {
+    if s.is_empty() {
+        return "-".into();
+    }
+    let v: Vec<String> = s.chars().map(|c| format!("{:x}", c as u32)).collect();
+    v.join(".")
+}
+
+pub fn undhex(s: &str) -> Option<String> {
+    if s == "-" {
+        return Some(String::new());
+    }
+    if s.is_empty() {
+        return None;
+    }
+    s.split('.')
+        .map(|x| {
+            if x.is_empty() {
+                return None;
+            }
+            u32::from_str_radix(x, 16).ok().and_then(char::from_u32)
+        })
+        .collect()
+}
+
+fn opt_dhex(s: Option<&str>) -> String {
+    match s {
+        None => "~".into(),
+        Some(s) => dhex(s),
+    }
+}
+
+pub fn undhex_opt(s: &str) -> Option<Option<String>> {
+    if s == "~" {
+        Some(None)
+    } else {
+        undhex(s).map(Some)
+    }
+}
+
+fn dump_name(n: &QualName) -> String {
+    format!(
+        "{}:{}:{}",
+        opt_dhex(n.prefix.as_ref().map(|p| &**p)),
+        dhex(&n.ns),
+        dhex(&n.local)
+    )
+}
+
+pub fn dump_node(h: &Handle, out: &mut String) {
+    match &h.data {
+        NodeData::Document => out.push_str("DOC"),
+        NodeData::Doctype {
+            name,
+            public_id,
+            system_id,
+        } => out.push_str(&format!(
+            "d[{}:{}:{}]",
+            dhex(name),
+            dhex(public_id),
+            dhex(system_id)
+        )),
+        NodeData::Text { contents } => out.push_str(&format!("t[{}]", dhex(&contents.borrow()))),
+        NodeData::Comment { contents } => out.push_str(&format!("c[{}]", dhex(contents))),
+        NodeData::ProcessingInstruction { target, contents } => {
+            out.push_str(&format!("p[{}:{}]", dhex(target), dhex(contents)))
+        },
+        NodeData::Element { name, attrs, .. } => {
+            out.push_str("e[");
+            out.push_str(&dump_name(name));
+            for a in attrs.borrow().iter() {
+                out.push(' ');
+                out.push_str(&dump_name(&a.name));
+                out.push('=');
+                out.push_str(&dhex(&a.value));
+            }
+            out.push_str("](");
+            dump_children(h, out);
+            out.push(')');
+        },
+    }
+}
+
+pub fn dump_children(h: &Handle, out: &mut String) {
+    for c in h.children.borrow().iter() {
+        dump_node(c, out);
+    }
+}
+
+pub fn err_code(msg: &str) -> Option<&'static str> {
+    Some(match msg {
+        "Can't declare XMLNS URI" => "xu",
+        "XML namespace can't be redeclared" => "xr",
+        "XMLNS namespaces can't be changed" => "xc",
+        "Namespace already defined" => "ad",
+        "Invalid namespace declaration." => "iv",
+        "No appropriate namespace found" => "nf",
+        "Unexpected EOF in start phase" => "es",
+        "Unexpected element in start phase" => "us",
+        "Unexpected element in main phase" => "um",
+        "Unexpected element in end phase" => "ue",
+        "Current node doesn't match tag" => "cm",
+        _ => return None,
+    })
+}
+
+pub fn dump_dom(dom: &RcDom) -> String {
+    let codes: Vec<&str> = dom
+        .errors
+        .borrow()
+        .iter()
+        .filter_map(|e| err_code(e))
+        .collect();
+    let mut tree = String::new();
+    dump_children(&dom.document, &mut tree);
+    format!(
+        "err={};tree={}",
+        if codes.is_empty() {
+            "-".to_string()
+        } else {
+            codes.join(",")
+        },
+        if tree.is_empty() { "-" } else { &tree }
+    )
+}
+
+fn mk_name(prefix: &str, local: &str) -> Option<QualName> {
+    let p = undhex_opt(prefix)?;
+    let l = undhex(local)?;
+    Some(QualName::new(
+        p.map(|p| Prefix::from(&*p)),
+        Namespace::from(""),
+        LocalName::from(&*l),
+    ))
+}
+
+fn parse_token(s: &str) -> Option<Token> {
+    let parts: Vec<&str> = s.split(',').collect();
+    let opt_t = |x: &str| -> Option<Option<StrTendril>> {
+        undhex_opt(x).map(|o| o.map(|s| StrTendril::from_slice(&s)))
+    };
+    match parts.as_slice() {
+        [k @ ("S" | "M" | "E" | "H"), prefix, local, rest @ ..] => {
+            if rest.len() % 3 != 0 {
+                return None;
+            }
+            let mut attrs = vec![];
+            for a in rest.chunks(3) {
+                attrs.push(Attribute {
+                    name: mk_name(a[0], a[1])?,
+                    value: StrTendril::from_slice(&undhex(a[2])?),
+                });
+            }
+            Some(Token::Tag(Tag {
+                kind: match *k {
+                    "S" => TagKind::StartTag,
+                    "M" => TagKind::EmptyTag,
+                    "E" => TagKind::EndTag,
+                    _ => TagKind::ShortTag,
+                },
+                name: mk_name(prefix, local)?,
+                attrs,
+            }))
+        },
+        ["T", t] => Some(Token::Characters(StrTendril::from_slice(&undhex(t)?))),
+        ["C", t] => Some(Token::Comment(StrTendril::from_slice(&undhex(t)?))),
+        ["P", t, d] => Some(Token::ProcessingInstruction(Pi {
+            target: StrTendril::from_slice(&undhex(t)?),
+            data: StrTendril::from_slice(&undhex(d)?),
+        })),
+        ["D", n, p, s] => Some(Token::Doctype(Doctype {
+            name: opt_t(n)?,
+            public_id: opt_t(p)?,
+            system_id: opt_t(s)?,
+        })),
+        ["N"] => Some(Token::NullCharacter),
+        ["Z"] => Some(Token::EndOfFile),
+        _ => None,
+    }
+}
+
+pub fn parse_tokens(s: &str) -> Option<Vec<Token>> {
+    if s == "-" {
+        return Some(vec![]);
+    }
+    s.split(';').map(parse_token).collect()
+}
+
+/// parse XML text given as `|`-separated space-hex chunks with the real tokenizer + tree builder
+pub fn parse_chunks(field: &str) -> Option<RcDom> {
+    let mut chunks = vec![];
+    for c in field.split('|') {
+        chunks.push(parse_string(c)?);
+    }
+    let mut parser = parse_document(RcDom::default(), Default::default());
+    for c in chunks {
+        parser.process(StrTendril::from_slice(&c));
+    }
+    Some(parser.finish())
+}
+
+pub fn run(fields: &[&str]) -> String {
+    match fields {
+        ["tok", toks] => {
+            let Some(toks) = parse_tokens(toks) else {
+                return "bad-case".into();
+            };
+            let tb = XmlTreeBuilder::new(RcDom::default(), XmlTreeBuilderOpts::default());
+            for t in toks {
+                let _ = tb.process_token(t);
+            }
+            tb.end();
+            dump_dom(&tb.sink)
+        },
+        ["src", chunks, _raw] => match parse_chunks(chunks) {
+            Some(dom) => dump_dom(&dom),
+            None => "bad-case".into(),
+        },
+        _ => "bad-case".into(),
+    }
 }
